@@ -391,6 +391,15 @@ impl VersionSet {
             }
         }
 
+        if maybe_manifest_read_error.is_none() && manifest_reader.dropped_bytes() > 0 {
+            // Unlike for a write-ahead log, a skipped manifest record silently loses or
+            // resurrects table files. Refuse to open the database instead.
+            maybe_manifest_read_error = Some(RecoverError::ManifestParse(format!(
+                "Detected corruption in the manifest file. {} bytes could not be read.",
+                manifest_reader.dropped_bytes()
+            )));
+        }
+
         if maybe_manifest_read_error.is_none() {
             if maybe_curr_file_num.is_none() {
                 maybe_manifest_read_error = Some(RecoverError::ManifestParse(
